@@ -43,7 +43,7 @@ META = {
     'decided': ['D1 constraint coverage', 'D2 domain agreement',
                 'D3 separator-aware hierarchical tests / argument-path rule',
                 'D4 missing arguments never match', 'D5 isolation and '
-                'removal (client router; daemon RemoveMatch accounting); matching does not modify the rule', 'D6 rule text agrees with the local rule',
+                'removal (client router; daemon RemoveMatch accounting); matching does not modify the rule; a rule is filed only when complete; cancelSignalNotification forgets the id at once', 'D6 rule text agrees with the local rule',
                 'D7 proxy subscription guarded by the signature'],
     'undecided': ['matcher == reference matcher on generated pairs',
                   'add/remove histories'],
@@ -711,8 +711,14 @@ def rule_text(ctx):
         row (<fmt>, <param>) of a table that is looped over"""
         found = set()
         for node in prog._iter_scope(fi.node):
-            if isinstance(node, ast.For) and isinstance(node.iter, ast.Name) \
-                    and node.iter.id == param:
+            if isinstance(node, ast.For) and (
+                    (isinstance(node.iter, ast.Name) and
+                     node.iter.id == param) or
+                    # for idx, v in arg or (): / in (arg or [])
+                    (isinstance(node.iter, ast.BoolOp) and
+                     isinstance(node.iter.op, ast.Or) and
+                     isinstance(node.iter.values[0], ast.Name) and
+                     node.iter.values[0].id == param)):
                 for n in ast.walk(node):
                     if isinstance(n, ast.BinOp) and \
                             isinstance(n.op, ast.Mod) and \
